@@ -510,14 +510,28 @@ func (r *rwRT) ruleImport() {
 			seen = true
 			var stored AV
 			var added []AV
+			_, seqKeys := r.importNameKeys() // where rewriteFile keeps the name of package seq, whatever the field is called
 			for _, e := range o.St.Events {
 				if e.Kind == "store" && strings.HasPrefix(e.Target, "r.") {
 					// the field itself, or a group of per-file fields re-initialised by one composite literal
+					tgt := epochRe.ReplaceAllString(e.Target, "")
 					if strings.HasSuffix(e.Target, ".seqImportedName") {
 						stored = e.Args[0]
 					} else if sv, ok := e.Args[0].(StructV); ok {
 						if v, ok := sv.Fields["seqImportedName"]; ok {
 							stored = v
+						}
+						for _, k := range seqKeys {
+							if strings.HasPrefix(k, tgt+".") {
+								if v, ok := sv.Fields[strings.TrimPrefix(k, tgt+".")]; ok {
+									stored = v
+								}
+							}
+						}
+					}
+					for _, k := range seqKeys {
+						if k == tgt {
+							stored = e.Args[0]
 						}
 					}
 				}
